@@ -70,9 +70,16 @@ package security
 //@   ensures wf_kept: cacheWF(c)
 
 //@ func (*SessionCache).LookupNonExpired (c, id) (result, ok)
-//@   props C06 C17
+//@   props C06 C07 C17
 //@   requires wf: [typeinv:session_cache.go] cacheWF(c) && (has(c.sessions, id) ==> c.sessions[id] != nil && !held(&c.sessions[id].mu))
-//@   assigns lock(&c.mu), clockNow, mapof(c.sessions), when(has(c.sessions, id), lock(&c.sessions[id].mu))
+//@   assigns lock(&c.mu), clockNow, mapof(c.sessions), mapof(c.commandMap), when(has(c.sessions, id), lock(&c.sessions[id].mu))
+//@   loop 1 invariant locked: held(&c.mu) && c.sessions == old(c.sessions) && c.commandMap == old(c.commandMap) && !has(c.sessions, id) && old(has(c.sessions, id)) && expiredAt(old(c.sessions[id]), clockNow)
+//@   loop 1 invariant settled: forall k :: visited(1, k) && has(c.commandMap, k) ==> c.commandMap[k] != id
+//@   loop 1 invariant other_routes: forall k :: (has(c.commandMap, k) ==> old(has(c.commandMap, k)) && c.commandMap[k] == old(c.commandMap[k])) && (old(has(c.commandMap, k)) && old(c.commandMap[k]) != id ==> has(c.commandMap, k))
+//@   loop 1 invariant other_sessions: forall k :: k != id ==> has(c.sessions, k) == old(has(c.sessions, k)) && c.sessions[k] == old(c.sessions[k])
+//@   ensures expired_session_loses_every_route: [C07] !ok && old(has(c.sessions, id)) ==> forall k :: has(c.commandMap, k) ==> c.commandMap[k] != id
+//@   ensures other_routes_kept: [C07] forall k :: old(has(c.commandMap, k)) && old(c.commandMap[k]) != id ==> has(c.commandMap, k) && c.commandMap[k] == old(c.commandMap[k])
+//@   ensures routes_kept_on_hit: [C07] ok ==> forall k :: has(c.commandMap, k) == old(has(c.commandMap, k)) && c.commandMap[k] == old(c.commandMap[k])
 //@   ensures hit: [C06] ok ==> old(has(c.sessions, id)) && result == old(c.sessions[id]) && !expiredAt(result, clockNow) && has(c.sessions, id)
 //@   ensures miss: [C06] !ok ==> result == nil && (!old(has(c.sessions, id)) || expiredAt(old(c.sessions[id]), clockNow))
 //@   ensures expired_evicted: [C06] !ok ==> !has(c.sessions, id)
